@@ -52,6 +52,11 @@ def run(chk: Check, proj: Project) -> None:
     s2(chk, proj, w)
     s3(chk, proj, w)
     s4(chk, proj, w)
+    from . import C01, C08
+
+    chk.borrow("S8", "slot content given from Python is emitted as given: only `None` means 'no fill' - an empty string is content (the slot must not fall back to its default markup, nor a required slot raise) (shared with C01-S4)",
+               lambda sub: C01.s4(sub, proj, w), only=lambda o: "none" in o.construct.lower() or "dropped" in o.construct.lower())
+    s9_replacement_is_not_a_template(chk, proj)
     s5_merge_repeated(chk, proj, w)
     s6_pipeline(chk, proj, w)
     from . import generic
@@ -306,6 +311,23 @@ def s2(chk: Check, proj: Project, w) -> None:
         at = cond_atoms(r)
         okr = any(pol and t == f"{cvar}.escaped" for t, pol in at)
         chk.ob("S2", "component:_normalize_slot_fills:passthrough-only-if-escaped", m.loc(r), okr, "a Slot is passed through unchanged only if it is already escaped" if okr else "a Slot is passed through unchanged without testing .escaped")
+
+
+def s9_replacement_is_not_a_template(chk: Check, proj: Project) -> None:
+    chk.rule("S9", "component JS / CSS that passed the end-tag guard reaches the page unchanged: wherever collected content is put into the document with re.sub / subn, the replacement is a FUNCTION (or a constant): a string / bytes replacement is a template in which `re` re-interprets backslash escapes - `<\\057script>` has no end tag and passes the guard, and is emitted as `</script>`")
+    dm = proj.mod("dependencies")
+    n = 0
+    for q, f in dm.funcs():
+        for c in [x for x in body_walk(f) if isinstance(x, ast.Call) and isinstance(x.func, ast.Attribute) and x.func.attr in ("sub", "subn") and x.args]:
+            n += 1
+            chk.analysed(fkey(dm, f))
+            r = c.args[0]
+            is_fn = isinstance(r, ast.Lambda) or (isinstance(r, ast.Name) and any(isinstance(d, ast.FunctionDef) and d.name == r.id for d in ast.walk(f)))
+            const = isinstance(r, ast.Constant)
+            chk.ob("S9", f"dependencies:{q}:{short(c, 50)}:replacement-kind", dm.loc(c), is_fn or const,
+                   "the replacement is a function (its return value is inserted literally)" if is_fn else ("constant replacement" if const else
+                   f"`{short(c, 70)}` passes `{norm(r)}` - text that contains the components' own JS / CSS - as a replacement TEMPLATE: backslash escapes in it are processed after wrap_component_js / wrap_component_css approved the text, so `<\\057script>` in Component.js ends up as a literal `</script>` that terminates its own element"))
+    chk.floor("S9", n, 2)
 
 
 def s3(chk: Check, proj: Project, w) -> None:
